@@ -5,7 +5,8 @@
    [builtins_confined] for it, Props/C12.v states the corollary.
 
    A call = which function + its immutable arguments (pulsetime, keys, key, vals, count,
-   the regex / url / substitution engines, how a rule dict is read).  Mutable arguments
+   the regex / url / substitution engines - for filter_keyvals_regex: whether the pattern
+   compiles and what findall says of a value label -, how a rule dict is read).  Mutable arguments
    (event lists, the `classes` list of categorize / tag) are heap locations.  [dc] maps the
    code f of [QBuiltin f args] to a call: the theorem holds for every dc.
 
@@ -18,7 +19,7 @@
    Wrong arity or a non-list where a list is expected raises before anything is touched
    (q2_typecheck): (h, None).  sum_durations and nop return immutable values: no root. *)
 From AwVerif Require Import Base.Prelude Model.MemHeap Model.Timeslot Model.TransformHeap Model.DictHeap
-  Model.Group Model.GroupHeap Model.ClassifyBase Model.Classify Model.ClassifyHeap.
+  Model.Group Model.GroupHeap Model.ClassifyBase Model.Classify Model.ClassifyHeap Model.FilterRegexHeap.
 From Coq Require Import Arith.
 Local Notation lookup := MemHeap.lookup.
 
@@ -39,7 +40,8 @@ Inductive call :=
   | CCategorize (re : Z -> bool -> Z -> bool) (rule_of : heap -> loc -> rule)
   | CTag (re : Z -> bool -> Z -> bool) (tag_of : Z -> Z) (rule_of : heap -> loc -> rule)
   | CSplitUrl (urlparse : value -> res urlparts) (starts_www : value -> bool) (drop4 : value -> value)
-  | CSimplify (sub_parens sub_fps sub_dot : Z -> Z) (key : Z).
+  | CSimplify (sub_parens sub_fps sub_dot : Z -> Z) (key : Z)
+  | CFilterKeyvalsRegex (key : Z) (compiled : bool) (findall : Z -> res bool).
 
 Definition of_res (h : heap) (r : res (heap * loc)) : heap * option (list loc) :=
   match r with Ok hl => (fst hl, Some [snd hl]) | _ => (h, None) end.
@@ -97,6 +99,7 @@ Definition run_call (c : call) (args : list loc) (h : heap) : heap * option (lis
       end
   | CSplitUrl up sw d4, [L] => of_hres (split_url_events_h up sw d4 h L)
   | CSimplify sp sf sd key, [L] => of_res h (simplify_string_h sp sf sd h L key)
+  | CFilterKeyvalsRegex key compiled findall, [L] => of_res h (filter_keyvals_regex_h compiled findall h L key)
   | _, _ => (h, None)
   end.
 
